@@ -407,7 +407,12 @@ def scan_ambient(files):
                 out.append((f, m.start(), kind, f.line_text(m.start())))
         for kind, pat in AMBIENT_IN_STRINGS:
             for m in re.finditer(pat, f.strs):
-                out.append((f, m.start(), kind, f.line_text(m.start())))
+                # the whole statement (what is formatted matters, not only the format string)
+                a = statement_start(f.code, m.start())
+                b = f.code.find(";", m.start())
+                if b < 0:
+                    fail("%s:%d: unterminated statement around a format string" % (f.rel, f.line_of(m.start())))
+                out.append((f, m.start(), kind, f.text[a:b + 1]))
     # one entry per (file, line, kind)
     seen, res = set(), []
     for f, off, kind, line in sorted(out, key=lambda x: (x[0].rel, x[1], x[2])):
@@ -473,7 +478,7 @@ def inventory(repo):
                 snip += "\n/* depends on %s %s %s */\n" % dep + item_text(files, *dep)
         rows.append({"file": f.rel, "function": f.function(off), "line": f.line_of(off), "kind": kind,
                      "hash": h16(snip), "snippet": snip})
-    amb = [{"file": f.rel, "function": f.function(off), "line": f.line_of(off), "kind": kind, "hash": h16(line), "snippet": line.strip()}
+    amb = [{"file": f.rel, "function": f.function(off), "line": f.line_of(off), "kind": kind, "hash": h16(line), "snippet": norm(line)}
            for f, off, kind, line in scan_ambient(files)]
     return {
         "files": rels,
